@@ -238,7 +238,7 @@ func Run(spec *Spec) (res *Result) {
 	func() {
 		defer func() {
 			if r := recover(); r != nil {
-				initErr = fmt.Sprintf("package init failed: %v", r)
+				initErr = fmt.Sprintf("package init failed: %v%s", r, panicWhere())
 				if os.Getenv("SYMGO_DEBUG") != "" {
 					dumpCallStack()
 					debug.PrintStack()
